@@ -129,6 +129,10 @@ func recoverFunc(runInfo *runInfoStruct) {
 }
 
 func isNil(v reflect.Value) bool {
+	if v.Kind() == reflect.Interface && !v.IsNil() {
+		// what counts is the value held: a typed nil read from a list element or a map entry is nil as well
+		v = v.Elem()
+	}
 	switch v.Kind() {
 	case reflect.Chan, reflect.Func, reflect.Interface, reflect.Map, reflect.Ptr, reflect.Slice:
 		// from reflect IsNil:
